@@ -22,7 +22,9 @@ Construction histories (plan fields form / attach / early / rephase): the gated 
 and wire=, keyword or positional; it is attached when its node is created, or only after something already resolved
 clock drivers on the half-built design (an early hw.getSimulator(), a Scope or OldWaveform probe, an RTL generation,
 direct getObjectClockDriver queries), or in the middle of the run; in the middle of the run drivers may also be detached
-or replaced by a fresh driver on another domain's enable, followed by hw.getSimulator() and a new assignment check.
+or replaced by a fresh driver on another domain's enable, followed by hw.getSimulator() and a new assignment check.  A driver may also start without an enable (a separate,
+always running domain) and get one later; the enable attribute of a live driver may be replaced or removed, with the
+bench going on with the simulator it already holds (no getSimulator() in between).
 
 Time (plan fields schedule / sources): the edges are requested by clk(1) stepping, by clk(n) calls with n = 2..50 mixed
 with single steps, or by one long call; inputs and enable sources are poked between calls (held inside a call) or are
@@ -135,6 +137,7 @@ def gen_plan(rnd, idx, pool, cycles):
     for d in doms:
         d['form'] = rnd.choice(('base_wire', 'base_wire') + FORMS[1:])
         d['attach'] = rnd.choice(('at_creation', 'at_creation', 'after_build', 'after_build', 'late'))
+        d['en_start'] = rnd.random() < 0.8
     early = rnd.choice(('none', 'none') + EARLY[1:])
     rephase = None
     if any(d['attach'] == 'late' for d in doms) or rnd.random() < 0.3:
@@ -144,7 +147,22 @@ def gen_plan(rnd, idx, pool, cycles):
             ch = rnd.choice(('attach', 'attach', repl)) if d['attach'] == 'late' else rnd.choice(('keep', 'detach', 'detach', repl))
             if ch != 'keep':
                 changes[str(k)] = ch
-        rephase = dict(at=rnd.randint(cycles // 4, (3 * cycles) // 4), probe=rnd.choice(('none', 'none', 'scope', 'sim', 'query')), changes=changes)
+        rephase = dict(at=rnd.randint(cycles // 4, (3 * cycles) // 4), probe=rnd.choice(('none', 'none', 'scope', 'sim', 'query')), changes=changes,
+                       resim=True)
+    live = [k for k, d in enumerate(doms) if d['attach'] != 'late']
+    if live and (rephase is None or not rephase['changes']) and (rnd.random() < 0.45 or any(not doms[k]['en_start'] for k in live)):
+        # the clock tree stays; only the enable attribute of live driver objects is reassigned, and (2 times out of 3) the
+        # bench goes on with the simulator it already holds
+        changes = {}
+        for k in live:
+            d = doms[k]
+            ch = 'enable_set:%d' % rnd.randrange(ndom) if not d['en_start'] else \
+                rnd.choice(('keep', 'enable_remove', 'enable_set:%d' % rnd.randrange(ndom), 'enable_set:%d' % rnd.randrange(ndom)))
+            if ch != 'keep':
+                changes[str(k)] = ch
+        resim = rnd.random() < 0.33
+        rephase = dict(at=rnd.randint(cycles // 4, (3 * cycles) // 4), changes=changes, resim=resim,
+                       probe=rnd.choice(('none', 'query')) if not resim else rnd.choice(('none', 'scope', 'sim', 'query')))
     # driver names need not be unique (a reusable block may build ClockDriver('gclk', ...) in its constructor): identity must count
     # time: how the edges are requested (clk(1) stepping, clk(n) calls with n = 2..50, one long call) and who drives the inputs
     # (poked between calls and held inside a call, or Sequence sources of the design that change at every edge)
@@ -360,8 +378,13 @@ def build(plan, stim=None):
     for k, d in enumerate(doms):
         name = 'gclk' if plan.get('same_names') else 'clk_d%d' % k
         form = d.get('form', 'base_wire')
-        obj = make_driver(py4hw, hw, name, form, wires['en%d' % k], lambda k=k: W('clkw_d%d' % k, 1))
-        B.drvrec[k] = dict(key='d%d' % k, name=name, obj=obj, en=wires['en%d' % k], kind=d['kind'], enw=d['enw'], form=form)
+        if d.get('en_start', True):
+            obj = make_driver(py4hw, hw, name, form, wires['en%d' % k], lambda k=k: W('clkw_d%d' % k, 1))
+            B.drvrec[k] = dict(key='d%d' % k, name=name, obj=obj, en=wires['en%d' % k], kind=d['kind'], enw=d['enw'], form=form)
+        else:
+            # a separate clock domain without gating (yet): its enable net may be attached to the live driver later
+            obj = make_driver(py4hw, hw, name, form, None, lambda k=k: W('clkw_d%d' % k, 1))
+            B.drvrec[k] = dict(key='d%d' % k, name=name, obj=obj, en=None, kind='always_on', enw=0, form=form)
         B.attached[k] = False
     items = []
     for k in range(len(doms)):
@@ -428,11 +451,16 @@ def detach(B, k):
 def elaborate(B):
     """(re-)elaborate: HWSystem.getSimulator() re-sorts the existing simulator; then map every block to its gating driver"""
     B.sim = B.hw.getSimulator()
+    remap(B)
+
+
+def remap(B):
+    """oracle-side bookkeeping only: which driver record (and so which enable net, if any) governs each block"""
     for rec in B.blocks:
         rec['drv'] = rec['node'].nearest_driver()
     seen = []
     for rec in B.blocks:
-        if rec['drv'] is not B.rootdrv and not any(rec['drv'] is d for d in seen):
+        if rec['drv']['en'] is not None and not any(rec['drv'] is d for d in seen):
             seen.append(rec['drv'])
     B.gating = seen
 
@@ -546,7 +574,21 @@ def apply_rephase(B, plan, rp):
             obj = make_driver(py4hw, B.hw, name, form, B.wires['en%d' % j], lambda: B.W('clkw_d%d_r' % k, 1))
             B.drvrec[k] = dict(key='d%dr' % k, name=name, obj=obj, en=B.wires['en%d' % j], kind=doms[j]['kind'], enw=doms[j]['enw'], form=form)
             attach(B, k)
-    elaborate(B)
+        elif ch.startswith('enable_'):
+            # only the enable attribute of the LIVE driver object changes (a net is attached to a driver that had none,
+            # another net takes over, or the gating is removed); the clock tree itself stays as it is
+            d = B.drvrec[k]
+            if ch == 'enable_remove':
+                d['obj'].enable = None
+                d.update(en=None, kind='always_on', enw=0)
+            else:
+                j = int(ch.split(':')[1])
+                d['obj'].enable = B.wires['en%d' % j]
+                d.update(en=B.wires['en%d' % j], kind=doms[j]['kind'], enw=doms[j]['enw'])
+    if rp.get('resim', True):
+        elaborate(B)
+    else:
+        remap(B)            # the bench keeps stepping the simulator it already holds: no getSimulator() in between
     return res
 
 
@@ -598,7 +640,7 @@ def run_design(run, plan, stim, stats=None, verbose=False):
         pre = []
         for rec in B.blocks:
             ins = {p: w.get() for p, w in rec['ins'].items()}
-            active = rec['drv'] is B.rootdrv or rec['drv']['now'] != 0
+            active = rec['drv']['en'] is None or rec['drv']['now'] != 0
             pre.append((ins, active, None if active else frozen_state(rec)))
         ST['pre'] = pre
 
@@ -653,7 +695,7 @@ def run_design(run, plan, stim, stats=None, verbose=False):
             bump('output_checks_active' if active else 'output_checks_gated', kind)
             if bad:
                 o, ev, ov = bad
-                en_val = None if drv is B.rootdrv else drv['now']
+                en_val = None if drv['en'] is None else drv['now']
                 run.violation('c10_value', dict(kind=kind, active=bool(active), en_is_one=(en_val == 1) if en_val is not None else None,
                                                 form=drv['form']),
                               dict(case, stimulus=stim[:t + 1], cycle=t, block=rec['id'], out=o), expected=ev, observed=ov,
@@ -706,6 +748,8 @@ def run_design(run, plan, stim, stats=None, verbose=False):
                 bump('rephase_probe', rp.get('probe', 'none'))
                 for ch in rp['changes'].values():
                     bump('rephase_changes', ch.split(':')[0])
+                    if ch.startswith('enable_'):
+                        bump('live_enable_changes_' + ('with_new_getSimulator' if rp.get('resim', True) else 'on_held_simulator'), ch.split(':')[0])
             n = sched.pop(0) if sched else 1
             n = max(1, min(n, len(stim) - t))
             if rp is not None and t < rp['at'] < t + n:
@@ -803,6 +847,8 @@ def run_check(run, tier, seed, shard):
     run.assume('outputs of a block are compared with the reference only once the block was clocked at least once (power-up '
                'values of nets are not part of the statement); the frozen-state clause is checked from the first edge')
     run.assume('reference machines and input domains are those of C09 (vlib/seqcat.py)')
+    run.assume('the simulator reads ClockDriver.enable at every edge: assigning another net (or None, or a first net) to the enable of '
+               'a driver that is already in use takes effect at the next edge, with or without a new getSimulator() call')
     run.assume('clk(n) is n edges: the enable of every domain is sampled before each of them (judged per edge from a Simulator '
                'listener, which the simulator notifies at the end of every cycle, also inside a clk(n) call)')
     run.assume('a ClockDriver with an enable gates its domain however it was built (with or without base=, with or without wire=, '
@@ -875,6 +921,9 @@ def post_merge(run, tier, seed):
     for ch in ('attach', 'detach', 'replace'):
         if not run.extra.get('rephase_changes', {}).get(ch):
             run.inconclusive.append('no mid-run %s of a clock driver followed by a re-elaboration' % ch)
+    for ch in ('enable_set', 'enable_remove'):
+        if not run.extra.get('live_enable_changes_on_held_simulator', {}).get(ch):
+            run.inconclusive.append('no mid-run %s on a live driver with the bench going on with the held simulator' % ch)
     fl = run.extra.get('edges_inside_clk_call_with_flipped_enable', {})
     for d in ('now_on', 'now_off'):
         if not fl.get(d):
